@@ -166,6 +166,49 @@ pub enum Case {
     BitFlip { frame: SFrame, positions: Vec<u16> },
 }
 
+/// The byte string a case hands to the parser (used by C19's codec cases as well).
+pub fn case_bytes(case: &Case) -> Vec<u8> {
+    match case {
+        Case::RoundTrip(frame) => frame.build().write().to_vec(),
+        Case::Bytes { data, fix_crc } => {
+            let mut bytes = data.clone();
+            if *fix_crc {
+                set_crc(&mut bytes);
+            }
+            bytes
+        }
+        Case::Mutated { frame, muts, fix_crc } => {
+            let mut bytes = frame.build().write().to_vec();
+            apply_mutations(&mut bytes, muts);
+            if *fix_crc {
+                set_crc(&mut bytes);
+            }
+            bytes
+        }
+        Case::BitFlip { frame, positions } => {
+            let mut bytes = frame.build().write().to_vec();
+            let nbits = bytes.len() * 8;
+            if nbits > 0 {
+                for p in positions.iter() {
+                    let p = pick_index(*p, nbits);
+                    bytes[p / 8] ^= 1 << (p % 8);
+                }
+            }
+            bytes
+        }
+    }
+}
+
+/// Parser inputs biased towards structurally damaged data / ack frames that pass the checksum.
+pub fn parser_input_strategy() -> BoxedStrategy<Case> {
+    prop_oneof![
+        2 => frame_strategy(40).prop_map(Case::RoundTrip),
+        1 => (proptest::collection::vec(any::<u8>(), 0..64), any::<bool>()).prop_map(|(data, fix_crc)| Case::Bytes { data, fix_crc }),
+        6 => (frame_strategy(40), proptest::collection::vec(mutation_strategy(), 1..4), prop_oneof![5 => Just(true), 1 => Just(false)]).prop_map(|(frame, muts, fix_crc)| Case::Mutated { frame, muts, fix_crc }),
+    ]
+    .boxed()
+}
+
 fn mutation_strategy() -> impl Strategy<Value = Mutation> {
     prop_oneof![
         any::<u16>().prop_map(Mutation::Truncate),
